@@ -300,6 +300,8 @@ static void *tree_alloc(void *ctx, size_t len)
 	struct CxTree *tree = ctx;
 	struct CxTreeItem *item;
 
+	if (len > SIZE_MAX - TREE_HDR)
+		return NULL;
 	item = cx_alloc(tree->real, TREE_HDR + len);
 	if (!item)
 		return NULL;
@@ -313,6 +315,9 @@ static void *tree_realloc(void *ctx, void *ptr, size_t len)
 {
 	struct CxTree *t = ctx;
 	struct CxTreeItem *item, *item2;
+
+	if (len > SIZE_MAX - TREE_HDR)
+		return NULL;
 	item = p_move(ptr, -TREE_HDR);
 
 	list_del(&item->node);
